@@ -52,7 +52,7 @@ def while_(c): return {"k": "while", "c": c}
 def wend(): return {"k": "wend"}
 def end(): return {"k": "end"}
 def stop(): return {"k": "stop"}
-def rem(txt=""): return {"k": "rem", "txt": txt}
+def rem(txt=""): return {"k": "rem", "txt": txt, "cp": cps(txt)}
 def data(*vals): return {"k": "data", "vals": [v["v"] for v in vals]}
 def read(*vs): return {"k": "read", "vs": list(vs)}
 def restore(n=-1): return {"k": "restore", "n": n}
@@ -83,7 +83,7 @@ def _range(k, a, b, form):
     if form == "from": b = 65529
     return {"k": k, "a": 0 if a is None else a, "b": 65529 if b is None else b, "form": form,
             "bare": form == "all"}
-def bad(txt, code=2): return {"k": "bad", "txt": txt, "code": code}
+def bad(txt, code=2): return {"k": "bad", "txt": txt, "cp": cps(txt), "code": code}
 
 # commands
 def line(n, *stmts): return {"k": "line", "n": n, "stmts": list(stmts)}
